@@ -11,7 +11,7 @@ PIECES = ['<', '>', '/', '=', '"', "'", '&', '#', ';', '!', '-', '?', ' ', '\n',
           '&amp;', '&#65;', '&#x41;', '&amp', '&#', '&;', 'x="1"', "y='2'", 'checked', '<script>', '</script>', '<style>', '</style>',
           '<pre>', '</pre>', '\x00', '\U0001F600', 'é', '<a<b', '<div', 'style', 'class=', ' class', '<details open>', '<!x>', '<! >',
           ' style="bold"', ' style=x', ' style=";;"', ' style=":"', ' style="a:b;c"', " style='color:red;;'", ' style="a: b: c"', ' class=""', ' class=" "',
-          ' class="a  b"', ' id=', ' a"b=1', ' 9x=1', ' =3', ' c&d=1', ' data-x', ' checked=checked',
+          ' class="a  b"', ' id=', '<a href>', '<img src>', '<form action>', ' href', ' src', ' action', ' value', ' name', ' type', ' for', ' title', ' a"b=1', ' 9x=1', ' =3', ' c&d=1', ' data-x', ' checked=checked',
           '< div>', '</ div>', '<//>', '<=>', '<1>', '"<', "'>", '<![if', '<br /', '<img src=x>', 'if', 'endif', ']>', '-->x']
 FORBIDDEN = re.compile(r'xxxblank|<!\[', re.I)
 
@@ -54,6 +54,7 @@ class C03(core.Check):
                  '<!-- c --><!DOCTYPE html><p>a</p>', '<!----><!DOCTYPE html><br/>', '<!-- saved from url -->\n<!DOCTYPE html>\n<html><body>x</body></html>',
                  '<!-- c -->\n<!DOCTYPE html>', '<?pi?><!DOCTYPE html><p>a</p>', 'x<!DOCTYPE html><p>a</p>', '\n \t<!DOCTYPE html><p>a</p><p>b</p>',
                  '<!-- a --><!-- b --><p>a</p>', '<p>a</p><!DOCTYPE html><p>b</p>',
+                 '<i>' * 30, '<div>' * 40 + 'x', '<b><i>' * 20 + 'deep' + '</i></b>' * 20, '<ul>' + '<li><ul>' * 18 + 'x', '<a href>x</a>', '<img src>', '<form action><input value></form>',
                  '<div style="bold">x</div>', '<p style=x>', '<div style=";;">', '<div style=":">x', '<div style="color">', '<div class=" ">', '<div style="a:b;c" style="x">',
                  '<i a"b=1 9x=2 =3 c&d=4>x</i>', '<div style>', '<div style="">',
                  '<div>a</div><?php echo 1; ?>', '<br><?x y?>', '<span/>\n<??>', '<?xml version="1.0"?><p>a</p>', '<p><?pi?></p><?pi2?>tail']
